@@ -929,3 +929,84 @@ package quic
 //@   ensures [offset-advances-with-credit] s.writeOffset - old(s.writeOffset) == fc.bytesSent - old(fc.bytesSent)
 //@   ensures [nothing-after-shutdown] implies(old(s.shutdownErr) != nil, result0 == nil && result1 == nil && !hasMoreData && fc.bytesSent == old(fc.bytesSent))
 //@   modifies s.nextFrame, s.dataForWriting, s.writeOffset, s.finSent, s.retransmissionQueue, fc.bytesSent, conn.bytesSent, fc.lastBlockedAt, elems(uint8), heap(wire.StreamFrame.Data), heap(wire.StreamFrame.StreamID), heap(wire.StreamFrame.Offset), heap(wire.StreamFrame.DataLenPresent), heap(wire.StreamFrame.Fin), heap(wire.StreamFrame.fromPool)
+
+// ---------------- per-datagram CRYPTO budget of the spec-driven packer (C10) ----------------
+// Everything the packer calls after the budget has been computed is given an "anything may change" contract: the
+// obligation below only concerns the value handed to maybeGetCryptoPacket for the Initial packet.
+//@ iface (m quic.sealingManager) GetInitialSealer
+//@   modifies nothing
+//@ iface (m quic.sealingManager) GetHandshakeSealer
+//@   modifies nothing
+//@ iface (m quic.sealingManager) Get0RTTSealer
+//@   modifies nothing
+//@ iface (m quic.sealingManager) Get1RTTSealer
+//@   modifies nothing
+//@ iface (s handshake.LongHeaderSealer) Overhead
+//@   ensures result == ufi("aead.overhead") && 0 <= result && result <= 64
+//@   modifies nothing
+//@ iface (s handshake.ShortHeaderSealer) Overhead
+//@   ensures result == ufi("aead.overhead") && 0 <= result && result <= 64
+//@   modifies nothing
+//@ iface (s handshake.ShortHeaderSealer) KeyPhase
+//@   modifies nothing
+
+//@ func (p *uPacketPacker) planInitialFlight
+//@   trusted plans a whole flight when the spec's builder is a QUICFlightFrameBuilder (its pieces are under contract: PopAllCryptoData, validateInitialFlight, the range builders); assumed: without a resulting plan the Initial stream is untouched
+//@   ensures implies(result == nil && len(p.flightPayloads) == 0, p.packetPacker.initialStream.writeOffset == old(p.packetPacker.initialStream.writeOffset))
+//@   ensures p.uSpec == old(p.uSpec) && p.initialDatagramIdx == old(p.initialDatagramIdx) && p.packetPacker == old(p.packetPacker) && p.packetPacker.initialStream == old(p.packetPacker.initialStream)
+//@   modifies p.flightPlanned, p.flightPayloads, p.packetPacker.initialStream.writeOffset, p.packetPacker.initialStream.writeBuf
+//@ func (p *uPacketPacker) packPlannedInitial
+//@   trusted serialises one planned datagram through appendInitialPacketPayload (under contract)
+//@   modifies everything
+//@ func (p *packetPacker) getLongHeader
+//@   trusted builds the header from the packer's state and PeekPacketNumber
+//@   ensures result != nil && isfresh(result) && len(result.Token) <= 65536 && result.DestConnectionID.l <= 20 && result.SrcConnectionID.l <= 20
+//@   modifies nothing
+//@ func (p *packetPacker) maybeGetCryptoPacket
+//@   trusted quic-go's payload composition (ACK + CRYPTO + retransmissions) for one encryption level
+//@   modifies everything
+//@ func (p *packetPacker) longHeaderPacketLength
+//@   trusted
+//@   modifies nothing
+//@ func (p *packetPacker) shortHeaderPacketLength
+//@   trusted
+//@   modifies nothing
+//@ func (p *packetPacker) maybeGetShortHeaderPacket
+//@   trusted
+//@   modifies everything
+//@ func (p *packetPacker) maybeGetAppDataPacketFor0RTT
+//@   trusted
+//@   modifies everything
+//@ func (p *packetPacker) initialPaddingLen
+//@   trusted
+//@   modifies nothing
+//@ func (p *packetPacker) appendLongHeaderPacket
+//@   trusted
+//@   modifies everything
+//@ func (p *packetPacker) appendShortHeaderPacket
+//@   trusted
+//@   modifies everything
+//@ func (p *uPacketPacker) appendInitialPacket
+//@   trusted marshals the payload through the spec's builder, then appendInitialPacketPayload (under contract)
+//@   modifies everything
+//@ func getPacketBuffer
+//@   trusted sync.Pool
+//@   ensures result != nil
+//@   modifies nothing
+
+//@ func (p *uPacketPacker) PackCoalescedPacket
+//@   props C10
+//@   requires p.uSpec != nil && p.packetPacker != nil && p.packetPacker.cryptoSetup != nil && p.packetPacker.pnManager != nil && p.packetPacker.initialStream != nil && p.initialDatagramIdx >= 0
+//@   requires 0 <= p.packetPacker.initialStream.writeOffset && p.packetPacker.initialStream.writeOffset <= 4611686018427387903 && 0 <= maxSize && maxSize <= 65536
+//@   let ps = p.uSpec.InitialPacketSpec
+//@   let np = len(ps.InitialPackets)
+//@   let cl = old(ite(np == 0, 0, ps.InitialPackets[min(p.initialDatagramIdx, np - 1)].CryptoLength))
+//@   let hdr = lastresult("(*ExtendedHeader).GetLength")
+//@   requires np == 0 || (0 <= ps.InitialPackets[min(p.initialDatagramIdx, np - 1)].CryptoLength && ps.InitialPackets[min(p.initialDatagramIdx, np - 1)].CryptoLength <= 1099511627776)
+//@   opt cutafter (*packetPacker).maybeGetCryptoPacket | (quic.sealingManager).GetHandshakeSealer | (quic.sealingManager).Get1RTTSealer
+//@   opt prune yes
+//@   let budget = hdr + 1 + quicvarint.vlen(uint64(old(p.packetPacker.initialStream.writeOffset))) + quicvarint.vlen(uint64(cl)) + cl
+//@   let firstIsInitial = called("(*packetPacker).maybeGetCryptoPacket") >= 1 && callarg("(*packetPacker).maybeGetCryptoPacket", 0, 2) == protocol.EncryptionInitial
+//@   ensures [crypto-length-budget] implies(firstIsInitial && 0 < cl && cl <= 4611686018427387903 && budget < maxSize - ufi("aead.overhead"), callarg("(*packetPacker).maybeGetCryptoPacket", 0, 1) == budget)
+//@   ensures [never-above-datagram] implies(firstIsInitial, callarg("(*packetPacker).maybeGetCryptoPacket", 0, 1) <= maxSize - ufi("aead.overhead"))
+//@   modifies everything
